@@ -382,7 +382,8 @@ def check_property(prop, tier, seed, only=None):
             elif not k and st["state"] == "reproduced":
                 unknown_fails.append(dict(id="finding/" + tag, tag=tag, msg="unlisted finding reproduced: " + st["msg"], repro="", engine="-"))
         for tag in sorted(seen_known):
-            lines.append(f"KNOWN-FINDING: property={prop} {known_by_tag[tag]['what']}")
+            what = re.sub(r"^known:\s*property=\S+\s*", "", known_by_tag[tag]["what"])
+            lines.append(f"KNOWN-FINDING: property={prop} {what}")
 
         violation = bool(problems) or bool(unknown_fails)
         replay_path = None
